@@ -4,6 +4,8 @@
 //! `panic <msg>` | `val <ints..>`.
 use radix_common::math::*;
 use radix_common::time::*;
+use radix_common::data::manifest::model::*;
+use radix_common::prelude::{IndexSet, NonFungibleLocalId};
 use std::io::BufRead;
 use std::str::FromStr;
 
@@ -71,8 +73,53 @@ fn odt(o: Option<UtcDateTime>) -> String {
     }
 }
 
+fn idset(a: &[&str]) -> IndexSet<NonFungibleLocalId> {
+    a.iter().map(|x| NonFungibleLocalId::integer(x.parse().unwrap())).collect()
+}
+
+/// mrc <variant 0..5> <amount a> <lower kind 0 NonZero|1 Inclusive> <lower value> <upper kind 0 Inclusive|1 Unbounded>
+///     <upper value> <n set ids> <ids...>   builds a ManifestResourceConstraint (General = fungible form, no id sets)
+fn mrc(a: &[&str]) -> (ManifestResourceConstraint, usize) {
+    let n: usize = a[6].parse().unwrap();
+    let set = idset(&a[7..7 + n]);
+    let c = match a[0] {
+        "0" => ManifestResourceConstraint::NonZeroAmount,
+        "1" => ManifestResourceConstraint::ExactAmount(dec(a[1])),
+        "2" => ManifestResourceConstraint::AtLeastAmount(dec(a[1])),
+        "3" => ManifestResourceConstraint::ExactNonFungibles(set),
+        "4" => ManifestResourceConstraint::AtLeastNonFungibles(set),
+        _ => ManifestResourceConstraint::General(GeneralResourceConstraint {
+            required_ids: Default::default(),
+            lower_bound: if a[2] == "0" { LowerBound::NonZero } else { LowerBound::Inclusive(dec(a[3])) },
+            upper_bound: if a[4] == "0" { UpperBound::Inclusive(dec(a[5])) } else { UpperBound::Unbounded },
+            allowed_ids: AllowedIds::Any,
+        }),
+    };
+    (c, 7 + n)
+}
+
 fn run(a: &[&str]) -> String {
     match a[0] {
+        "mrc_fungible" => {
+            let (c, k) = mrc(&a[1..]);
+            match c.validate_fungible(dec(a[1 + k])) {
+                Ok(()) => "ok 0".to_string(),
+                Err(_) => "err".to_string(),
+            }
+        }
+        "mrc_valid_fungible" => {
+            let (c, _) = mrc(&a[1..]);
+            format!("val {}", if c.is_valid_for_fungible_use() { 1 } else { 0 })
+        }
+        "mrc_nf" => {
+            let (c, k) = mrc(&a[1..]);
+            let m: usize = a[1 + k].parse().unwrap();
+            let ids = idset(&a[2 + k..2 + k + m]);
+            match c.validate_non_fungible(&ids) {
+                Ok(()) => "ok 0".to_string(),
+                Err(_) => "err".to_string(),
+            }
+        }
         "dec_mul" => od(dec(a[1]).checked_mul(dec(a[2]))),
         "dec_div" => od(dec(a[1]).checked_div(dec(a[2]))),
         "dec_add" => od(dec(a[1]).checked_add(dec(a[2]))),
